@@ -572,4 +572,4 @@ LEVEL_TEXT = (
     "completion, absence of deadlock."
 )
 LEVEL_NOTE = "Trusted: the scheduler (vf/props/c19.py) and vtrace's yield points; exploration granularity = filesystem operations and lock acquisitions."
-TECHNIQUE = "deterministic cooperative scheduler over filesystem/lock yield points; DFS enumeration of interleavings + Hypothesis schedules; sequential-equivalence oracle"
+TECHNIQUE = "deterministic cooperative scheduler over filesystem/lock yield points; DFS enumeration of interleavings + Hypothesis schedules + forked workers on pickled copies; sequential-equivalence oracle"
